@@ -14,12 +14,14 @@ type ForInfo struct {
 	Blocks, Instances, MaxDepth                                     int
 	Nested, ZeroCount, EquCount, CounterArith, Sequential           bool
 	LabelUsedInside, LabelUsedOutside, BodyStartsWithFor, NoCounter bool
+	EquBetweenBlocks                                                bool
 }
 
 type forGen struct {
 	t        *rapid.T
 	cfg      AsmConfig
-	equs     []string
+	equs     []string // EQUs defined textually before the item being generated (usable in FOR counts)
+	allEqus  []string // every EQU of the program (usable in operands, forward references included)
 	equVal   map[string]int64
 	nCounter int
 	nBlock   int
@@ -60,8 +62,8 @@ func (g *forGen) operand(counters []string) []rc.Tok {
 		return rc.Toks(l)
 	case k == 6 && len(g.blkLabs) > 0:
 		return rc.Toks(rc.ID(rapid.SampledFrom(g.blkLabs).Draw(t, "bl")))
-	case k == 7 && len(g.equs) > 0:
-		return rc.Toks(rc.ID(rapid.SampledFrom(g.equs).Draw(t, "eq")))
+	case k == 7 && len(g.allEqus) > 0:
+		return rc.Toks(rc.ID(rapid.SampledFrom(g.allEqus).Draw(t, "eq")))
 	default:
 		return rc.Toks(rc.N(int64(rapid.IntRange(0, 20).Draw(t, "lit"))))
 	}
@@ -195,6 +197,7 @@ func ForProgram(t *rapid.T, cfg AsmConfig) (rc.Program, ForInfo) {
 	g := &forGen{t: t, cfg: cfg, equVal: map[string]int64{}}
 	var items []rc.Item
 	ne := rapid.IntRange(0, 3).Draw(t, "nequ")
+	var equItems []rc.Item
 	for k := 0; k < ne; k++ {
 		name := fmt.Sprintf("C%d", k)
 		a := int64(rapid.IntRange(0, 6).Draw(t, "ev"))
@@ -211,8 +214,8 @@ func ForProgram(t *rapid.T, cfg AsmConfig) (rc.Program, ForInfo) {
 			body = rc.Toks(rc.LP(), rc.N(a), rc.OP("*"), rc.N(2), rc.RP())
 			val = a * 2
 		}
-		items = append(items, rc.Item{Kind: rc.KEqu, Labels: []string{name}, Expr: body})
-		g.equs = append(g.equs, name)
+		equItems = append(equItems, rc.Item{Kind: rc.KEqu, Labels: []string{name}, Expr: body})
+		g.allEqus = append(g.allEqus, name)
 		g.equVal[name] = val
 	}
 	nTop := rapid.IntRange(1, 6).Draw(t, "ntop")
@@ -238,9 +241,28 @@ func ForProgram(t *rapid.T, cfg AsmConfig) (rc.Program, ForInfo) {
 	for k := 0; k < nbl; k++ {
 		g.blkLabs = append(g.blkLabs, fmt.Sprintf("B%d", k))
 	}
+	// every EQU line is placed before some top-level item (0 = top of the file);
+	// a FOR count may only use EQUs placed before its block
+	equPos := make([]int, len(equItems))
+	for k := range equItems {
+		if rapid.Bool().Draw(t, "equtop") {
+			equPos[k] = 0
+		} else {
+			equPos[k] = rapid.IntRange(0, nTop-1).Draw(t, "equpos")
+		}
+	}
 	budget := 40
 	seq := 0
 	for i := 0; i < nTop; i++ {
+		for k, e := range equItems {
+			if equPos[k] == i {
+				items = append(items, e)
+				g.equs = append(g.equs, e.Labels[0])
+				if i > 0 {
+					g.info.EquBetweenBlocks = true
+				}
+			}
+		}
 		if kinds[i] {
 			seq++
 			var labs []string
